@@ -296,7 +296,7 @@ def distribution(cases):
 def proj_sqrt(line, out):
     """sqrt: compare only nil/non-nil and the destination after failure; the
     root itself is checked through z*z = x by a follow-up case."""
-    if ' sqrt ' in line:
+    if ' sqrt ' in line or ' sqrtalias ' in line:
         t = out.split()
         if t and t[0] == 'nil':
             return out
